@@ -12,6 +12,8 @@
                | (return) | (return A)
            E ::= (lit 0|1) | (bvar j) | (bglob h) | (cmp OP A A) | (not E) | (and E E) | (or E E)
            A ::= (i k) | (n z) | (ar add|sub|mul A A) | (un neg|pos A) | (glob g)
+               | (byte j)      the j-th byte-sized local (bool locals so far: `(q is byte) is int`) read as an int
+               | (low i)       the low byte of the i-th int local read as an int: `(x is byte) is int`
            globals: (glob g) reads the g-th int global, (bglob h) the h-th bool global;
                S ::= ... | (assg g A) | (assgdiv g div|mod A A) | (call assigng g <f> A ...) | (assbg h E)
                `prog` and `run` lines take (ginit z ...) (binit 0|1 ...) before the functions: the
@@ -96,6 +98,8 @@ let dop_of = function
 let rec opd_of = function
   | L [Atom "i"; Atom k] -> OVar (nat_of_int (int_of_string k))
   | L [Atom "glob"; Atom k] -> OGlob (nat_of_int (int_of_string k))
+  | L [Atom "byte"; Atom j] -> OByte (YSlot (nat_of_int (int_of_string j)))
+  | L [Atom "low"; Atom i] -> OByte (YLow (nat_of_int (int_of_string i)))
   | L [Atom "n"; Atom z] -> OLit (z_of_string z)
   | L [Atom "ar"; Atom op; x; y] -> OArith (aop_of op, opd_of x, opd_of y)
   | L [Atom "un"; Atom "neg"; x] -> OUn (UNeg, opd_of x)
